@@ -1,6 +1,7 @@
 //! One module per property. Modules that only need the decode crate's always-present API are
 //! compiled in every build configuration; the others need features of the crates under test.
 pub mod c02;
+pub mod disturb;
 pub mod c03;
 pub mod c06;
 pub mod c08;
